@@ -37,7 +37,7 @@ class Run:
     pass
 
 
-def run_cli(cwd, args, env_extra=None, timeout=30, stdin=None):
+def run_cli(cwd, args, env_extra=None, timeout=30, stdin=None, template=None):
     env = dict(os.environ)
     for k in list(env):
         if k.startswith("SLT_") or k.startswith("BUILDKITE_") or k.startswith("FAKE_"):
@@ -51,7 +51,7 @@ def run_cli(cwd, args, env_extra=None, timeout=30, stdin=None):
     env["FAKE_LOG"] = log
     if env_extra:
         env.update(env_extra)
-    cmd = [CLI, "--engine", "external", "--external-engine-command-template", f"exec {ENGINE} {{db}}",
+    cmd = [CLI, "--engine", "external", "--external-engine-command-template", template or f"exec {ENGINE} {{db}}",
            "--color", "never"] + args
     t0 = time.time()
     r = Run()
@@ -293,7 +293,8 @@ def file_text(path, kind, rnd, extra=True, n_before=None, linger=False):
     if linger:
         # this file's session needs a while to close after end-of-file: the database must not be
         # dropped before it has
-        recs.append(f"statement ok\nlinger {rnd.choice([700, 900])} x{m}\n")
+        # (now and then for longer than any plausible grace period)
+        recs.append(f"statement ok\nlinger {rnd.choice([700, 900, 900, 3600])} x{m}\n")
     for _ in range(n_before):
         recs.append(ok_rec())
     if kind == "pass":
@@ -705,6 +706,21 @@ def traffic_files(r, files):
 
 
 def profile_cli19(rnd, n, thorough, out):
+    # exactly 256 (and 512) files that do not pass: the exit status is still not 0 (a status derived from a
+    # count would wrap around)
+    for nf, ff in ((256, True), (256, False), (512, True)):
+        cwd = fresh_dir(f"c19w_{nf}")
+        os.makedirs(os.path.join(cwd, "t"), exist_ok=True)
+        files = sorted(f"t/g{i:03d}.slt" for i in range(nf))
+        kinds = {f: ("fail" if (i == 0 or not ff) else "pass") for i, f in enumerate(files)}
+        for f in files:
+            open(os.path.join(cwd, f), "w").write(file_text(f, kinds[f], rnd, extra=False, n_before=0))
+        r, tags, ju, evs, cause, oracle = cli_run_set(cwd, files, kinds, 0, ff, False, rnd, latency=0)
+        if oracle is None and r.exit == 0:
+            oracle = f"exit status 0 although {nf} files did not pass"
+        out.add(climon_case(0, False, r.exit, True, files, kinds, tags, ju, evs), "accept",
+                f"cli19 serial failfast={ff} over {nf} files, none of which passes", ("C19|" + oracle) if oracle else None)
+        shutil.rmtree(cwd, ignore_errors=True)
     for si in range(n):
         cwd = fresh_dir(f"c19_{si}")
         jobs = [0, 3, 2, 0, 3][si % 5]
@@ -1225,6 +1241,52 @@ def profile_climulti(rnd, n, thorough, out):
             shutil.rmtree(cwd, ignore_errors=True)
 
 
+def profile_clitmpl(rnd, n, thorough, out):
+    """the external-engine command template: `{db} {host} {port} {user} {pass}` are replaced by the
+    connection options, everything else reaches `bash -c` verbatim; observed as the argv of the engine"""
+    lits = ["--x", "a=b", "k:v", "plain", "A_1", "7", "x.y", "db", "host", "{", "}", "{}", "{dbx}", "{ db}", "{DB}", "{hosts}", "u,p"]
+    phs = ["{db}", "{host}", "{port}", "{user}", "{pass}"]
+    cwd = fresh_dir("tmpl")
+    os.makedirs(os.path.join(cwd, "t"), exist_ok=True)
+    open(os.path.join(cwd, "t/a.slt"), "w").write("statement ok\nselect 1 -- Ft/a.slt\n")
+    for ci in range(n):
+        # an argument is a concatenation of literal pieces and placeholders
+        args = []
+        for _ in range(rnd.randint(0, 5)):
+            a = "".join(rnd.choice(phs) if rnd.random() < 0.55 else rnd.choice(lits) for _ in range(rnd.randint(1, 4)))
+            args.append(a)
+        # values: mostly plain, sometimes containing a later placeholder (replaced again by the
+        # following `replace`: outside the guard of the theorem, inside the model)
+        def val(pool):
+            return rnd.choice(pool)
+        db = val(["d1", "testdb", "x{host}", "d{user}", "{pass}", "db_2"])
+        host = val(["h1", "node-7", "h{port}", "localhost"])
+        port = str(rnd.choice([1, 80, 5432, 65535]))
+        user = val(["u", "alice", "u{pass}", "{db}"])
+        pw = val(["p", "secret", "{db}", "{host}x"])
+        tmpl_case = "exec ENGINE {db}" + "".join(" " + a for a in args)
+        tmpl_real = f"exec {ENGINE} {{db}}" + "".join(" " + a for a in args)
+        how = rnd.choice(["flags", "env"])
+        cargs, env = [], {}
+        if how == "flags":
+            cargs = ["--db", db, "--host", host, "--port", port, "--user", user, "--pass", pw]
+        else:
+            env = {"SLT_DB": db, "SLT_HOST": host, "SLT_PORT": port, "SLT_USER": user, "SLT_PASSWORD": pw}
+        r = run_cli(cwd, cargs + ["t/a.slt"], env, timeout=25, template=tmpl_real)
+        conn = [e for e in r.events if e["ev"] == "connect"]
+        if conn:
+            argv = [conn[0]["db"]] + [bytes.fromhex(a).decode("utf-8", "replace") for a in conn[0]["args"]]
+            impl = hx("exec ENGINE " + " ".join(argv))
+        else:
+            impl = f"no-engine-started exit={r.exit}"
+        oracle = None
+        if r.exit != 0 and conn:
+            oracle = f"C20|the run failed (exit {r.exit}) although the engine answers every request"
+        out.add(f"cmdtmpl {hx(tmpl_case)} {hx(db)} {hx(host)} {hx(port)} {hx(user)} {hx(pw)}", impl,
+                f"clitmpl case={ci} via={how} template={tmpl_case!r} db={db} host={host} port={port} user={user} pass={pw}", oracle)
+    shutil.rmtree(cwd, ignore_errors=True)
+
+
 def replay_line(line):
     """re-run a deterministic case on the current CLI build"""
     t = line.split(" ")
@@ -1263,7 +1325,8 @@ def replay_line(line):
     return "not-replayable (schedule-dependent run: see the recorded observation in the replay file)"
 
 
-PROFILES = {"cli18": profile_cli18, "cli16": profile_cli16, "cli17": profile_cli17, "cli19": profile_cli19, "cliupd": profile_cliupd, "climulti": profile_climulti}
+PROFILES = {"cli18": profile_cli18, "cli16": profile_cli16, "cli17": profile_cli17, "cli19": profile_cli19, "cliupd": profile_cliupd, "climulti": profile_climulti,
+            "clitmpl": profile_clitmpl}
 
 
 def main():
